@@ -253,6 +253,28 @@ def network(name):
     raise ValueError(name)
 
 
+def library_band(eq, variety):
+    """band of an amplifier model as the equipment document declares it (documented default when it gives none)"""
+    ent = next((e for e in eq['Edfa'] if e.get('type_variety') == variety), None)
+    if ent is None:
+        return None
+    return (ent.get('f_min', 191.275e12), ent.get('f_max', 196.125e12))
+
+
+def bands_vs_library(path, eq):
+    """amplifiers of the path whose band differs from the one their model declares in the equipment document"""
+    from gnpy.core.elements import Edfa, Multiband_amplifier
+    bad = []
+    for n in path:
+        amps = list(n.amplifiers.values()) if isinstance(n, Multiband_amplifier) else [n] if isinstance(n, Edfa) else []
+        for a in amps:
+            exp = library_band(eq, a.params.type_variety)
+            if exp is not None and (a.params.f_min, a.params.f_max) != exp:
+                bad.append(f'{n.uid} ({a.params.type_variety}): element band {a.params.f_min / 1e12}-{a.params.f_max / 1e12} THz, '
+                           f'library {exp[0] / 1e12}-{exp[1] / 1e12} THz')
+    return bad
+
+
 def path_common_bands(path):
     from gnpy.core.elements import Edfa, Multiband_amplifier
     sets = []
@@ -320,6 +342,10 @@ def run_path(case):
     for path in c.all_simple_trx_paths(net):
         common, union = path_common_bands(path)
         where = f'net {case["net"]} path {path[0].uid}->{path[-1].uid}'
+        bad = bands_vs_library(path, eq)
+        if bad:
+            viol.append(dict(fingerprint='amplifier-band-differs-from-library', what=f'{where}: {bad[0]}'))
+            break
         if case['spectrum'] == 'uniform':
             si0 = equipment['SI']['default']
             n = int((si0.f_max - si0.f_min) // si0.spacing)
